@@ -211,7 +211,7 @@ func runCases(in string, keep map[int]bool, rep *vio.Report) {
 					kind := classify(got, exp, msg)
 					rep.Mismatches = append(rep.Mismatches, vio.Mismatch{Case: i, Signature: fmt.Sprintf("C51|A|%s|%s|coll=%s|multi=%v", v.name, kind, c.Coll, c.Multi),
 						Expected: exp, Got: map[string]interface{}{"ids": got, "err": msg},
-						Input:    map[string]interface{}{"sql": v.sql, "query": k, "case": c}})
+						Input: map[string]interface{}{"sql": v.sql, "query": k, "case": c}})
 				}
 			}
 			if k == 0 {
